@@ -18,9 +18,9 @@ use winter_crypto::{
 };
 use winter_math::{
     fields::{f128, f62, f64, CubeExtension, QuadExtension},
-    FieldElement,
+    FieldElement, StarkField,
 };
-use winter_utils::Serializable;
+use winter_utils::{ByteReader, ByteWriter, Deserializable, DeserializationError, Serializable};
 
 use crate::fields::TField;
 
@@ -90,6 +90,71 @@ impl<H: ElementHasher> ElementHasher for LoggedHasher<H> {
     }
 }
 
+// TRANSPARENT-HEAD HASHER
+// ------------------------------------------------------------------------------------------------
+/// A harness-defined hasher for the generic `DefaultRandomCoin<H>`: `merge_with_int(seed, value)` returns a
+/// digest whose first 8 bytes ARE `value` (little-endian); the other 24 bytes, and every other method, are
+/// BLAKE3 of a tagged encoding of the inputs (so distinct inputs still give distinct digests).  With real
+/// hashers a digest head with more than ~30 trailing zero bits never occurs; with this one the driver picks
+/// the head, so check_leading_zeros is exercised on every count 0..64, draws decode chosen bytes, etc.
+/// It is an INPUT of the experiment (the coin is generic over H); the specification never knows which hasher
+/// produced the logged facts.
+#[derive(Debug, Default, Copy, Clone, Eq, PartialEq)]
+pub struct TDigest([u8; 32]);
+impl Digest for TDigest {
+    fn as_bytes(&self) -> [u8; 32] {
+        self.0
+    }
+}
+impl Serializable for TDigest {
+    fn write_into<W: ByteWriter>(&self, target: &mut W) {
+        target.write_bytes(&self.0);
+    }
+}
+impl Deserializable for TDigest {
+    fn read_from<R: ByteReader>(source: &mut R) -> Result<Self, DeserializationError> {
+        Ok(TDigest(source.read_array()?))
+    }
+}
+pub struct TransparentHead<B>(PhantomData<B>);
+fn tagged(tag: u8, parts: &[&[u8]]) -> [u8; 32] {
+    let mut h = blake3::Hasher::new();
+    h.update(&[tag]);
+    for p in parts {
+        h.update(&(p.len() as u64).to_le_bytes());
+        h.update(p);
+    }
+    *h.finalize().as_bytes()
+}
+impl<B: StarkField> Hasher for TransparentHead<B> {
+    type Digest = TDigest;
+    const COLLISION_RESISTANCE: u32 = 96;
+    fn hash(bytes: &[u8]) -> TDigest {
+        TDigest(tagged(b'h', &[bytes]))
+    }
+    fn merge(values: &[TDigest; 2]) -> TDigest {
+        TDigest(tagged(b'm', &[&values[0].0, &values[1].0]))
+    }
+    fn merge_many(values: &[TDigest]) -> TDigest {
+        let parts: Vec<&[u8]> = values.iter().map(|d| &d.0[..]).collect();
+        TDigest(tagged(b'M', &parts))
+    }
+    fn merge_with_int(seed: TDigest, value: u64) -> TDigest {
+        let mut out = tagged(b'i', &[&seed.0, &value.to_le_bytes()]);
+        out.copy_within(0..24, 8);
+        out[..8].copy_from_slice(&value.to_le_bytes());
+        TDigest(out)
+    }
+}
+impl<B: StarkField> ElementHasher for TransparentHead<B> {
+    type BaseField = B;
+    fn hash_elements<E: FieldElement<BaseField = B>>(elements: &[E]) -> TDigest {
+        let enc: Vec<Vec<u8>> = elements.iter().map(|e| e.to_bytes()).collect();
+        let parts: Vec<&[u8]> = enc.iter().map(|v| &v[..]).collect();
+        TDigest(tagged(b'e', &parts))
+    }
+}
+
 // DRIVER
 // ------------------------------------------------------------------------------------------------
 fn res_ok(v: Value) -> Value {
@@ -107,7 +172,7 @@ fn res_panic(msg: String) -> Value {
 
 fn event(e: &str, run: &str, hid: u64) -> Value {
     json!({"e": e, "run": run, "hid": hid, "f": "", "h": "", "seed": [], "d": -1, "deg": 0, "n": 0, "size": 0,
-           "nonce": [], "div": 0, "hf": [], "r": {"t": "ok", "v": []}})
+           "nonce": [], "div": 0, "oracle": 1, "hf": [], "r": {"t": "ok", "v": []}})
 }
 
 fn u64_of(v: &Value) -> u64 {
@@ -204,6 +269,9 @@ fn run_once<B: TField, H: ElementHasher<BaseField = B>>(h: &Value, run: &str, ou
     }
     let mut ev = event("end", run, hid);
     ev["div"] = json!(div);
+    // declared by the history: 1 when H is a real hash function (its outputs behave like random bytes),
+    // 0 for the transparent-head hasher, whose digest heads are chosen by the driver
+    ev["oracle"] = json!(h["oracle"].as_u64().unwrap_or(1));
     out.push(ev);
 }
 
@@ -238,6 +306,10 @@ pub fn main(args: &[String]) -> i32 {
             ("rp64", "f64") => run_history::<f64::BaseElement, Rp64_256>(h, &mut out),
             ("rpj64", "f64") => run_history::<f64::BaseElement, RpJive64_256>(h, &mut out),
             ("rp62", "f62") => run_history::<f62::BaseElement, Rp62_248>(h, &mut out),
+            ("thead", "f64") => run_history::<f64::BaseElement, TransparentHead<f64::BaseElement>>(h, &mut out),
+            ("thead", "f62") => run_history::<f62::BaseElement, TransparentHead<f62::BaseElement>>(h, &mut out),
+            ("thead", "f128") => run_history::<f128::BaseElement, TransparentHead<f128::BaseElement>>(h, &mut out),
+            ("thead", "t40961") => run_history::<F40961, TransparentHead<F40961>>(h, &mut out),
             ("b256", "t97") => run_history::<F97, Blake3_256<F97>>(h, &mut out),
             ("b256", "t257") => run_history::<F257, Blake3_256<F257>>(h, &mut out),
             ("sha3", "t257r") => run_history::<F257R, Sha3_256<F257R>>(h, &mut out),
